@@ -1,10 +1,11 @@
 (* The executable guard of the statement-layer simulation theorem (C01_stmt_preserve_partial):
-   the fragment in which every variable is first assigned at top level (so it is a C global),
-   keeps one type, loop bounds do not depend on what the body assigns, loop variables are
-   fresh, read only inside their loop and never assigned, and there is no tuple assignment.
+   the fragment in which every variable is first assigned at top level of the setup part (so it
+   is a C global) or at top level of the `while True:` body before any read of it in that body
+   (so it is a local of loop(), assigned on every pass before it is used), keeps one type, loop bounds do not depend on what the body assigns, loop variables are
+   fresh, read only inside their loop and never assigned.
    Each clause is forced by a counterexample (see the _refuted theorems and DESIGN.md C01). *)
 From Coq Require Import ZArith List Bool.
-From RV Require Import Base.Wire Base.Text Lang.StmtAst.
+From RV Require Import Base.Wire Base.Text Lang.StmtAst Lang.Transl.
 Import ListNotations.
 Open Scope Z_scope.
 
@@ -29,56 +30,66 @@ Definition assigned_in (l : list pstmt) : list ident := flat_map assigned l.
 
 Definition disjoint (a b : list ident) : bool := forallb (fun x => negb (tmem x b)) a.
 
-Fixpoint g_stmt (fuel : nat) (top : bool) (D : tenv) (L : list ident) (p : pstmt) {struct fuel} : option tenv :=
+Fixpoint nodupb (l : list ident) : bool :=
+  match l with [] => true | x :: r => negb (tmem x r) && nodupb r end.
+
+(* `x1, ..., xn = e1, ..., en` declaring n NEW names at top level of the setup part: the parser
+   emits plain global declarations (no temporaries) *)
+Definition tuple_decl_ok (D : tenv) (L : list ident) (xs : list ident) (es : list ann) : bool :=
+  Nat.eqb (length xs) (length es)
+  && forallb (fv_ok D L) es
+  && forallb (fun x => negb (tmem x (map fst D)) && negb (tmem x L)) xs
+  && nodupb xs.
+
+(* One fuelled fixpoint on statement lists, in the style of Transl.tr_block (one unit of fuel
+   per statement, nested or in sequence; [Transl.bsize] is enough).  [top] = the statements
+   are at setup depth 0, where a first assignment declares a C global. *)
+Fixpoint g_block (fuel : nat) (top : bool) (D : tenv) (L : list ident) (ps : list pstmt) {struct fuel}
+  : option tenv :=
   match fuel with
   | O => None
   | S f =>
-    let g_block :=
-      fix g_block (top : bool) (D : tenv) (L : list ident) (ps : list pstmt) : option tenv :=
-        match ps with
-        | [] => Some D
-        | q :: r => match g_stmt f top D L q with Some D1 => g_block top D1 L r | None => None end
-        end in
-    (* a nested block may not extend the declaration environment *)
-    let nested := fun (L' : list ident) (b : list pstmt) =>
-      match g_block false D L' b with Some _ => true | None => false end in
-    match p with
-    | PAssign x e =>
-        if negb (fv_ok D L e) || tmem x L then None
-        else match tlookup x D with
-             | Some t => if ty_eqb t (a_ty e) then Some D else None
-             | None => if top then Some (D ++ [(x, a_ty e)]) else None
-             end
-    | PAug x op e t_after =>
-        if negb (fv_ok D L e) || tmem x L then None
-        else match tlookup x D with
-             | Some t => if ty_eqb t t_after then Some D else None
-             | None => None
-             end
-    | PTuple _ _ => None
-    | PBreak => Some D
-    | PWrite e | PSleep e | PExprS e => if fv_ok D L e then Some D else None
-    | PIf c body elifs els =>
-        if fv_ok D L c && nested L body
-           && forallb (fun cb => fv_ok D L (fst cb) && nested L (snd cb)) elifs
-           && nested L els
-        then Some D else None
-    | PWhile c body => if fv_ok D L c && nested L body then Some D else None
-    | PFor x cnt body =>
-        if fv_ok D L cnt && ty_eqb (a_ty cnt) TyInt
-           && negb (tmem x (map fst D)) && negb (tmem x L)
-           && negb (tmem x (a_fv cnt))
-           && disjoint (a_fv cnt) (assigned_in body)
-           && negb (tmem x (assigned_in body))
-           && nested (x :: L) body
-        then Some D else None
+    match ps with
+    | [] => Some D
+    | p :: rest =>
+      (* a nested block may not extend the declaration environment *)
+      let nested := fun (L' : list ident) (b : list pstmt) =>
+        match g_block f false D L' b with Some _ => true | None => false end in
+      let continue_with := fun (r : option tenv) =>
+        match r with Some D1 => g_block f top D1 L rest | None => None end in
+      continue_with
+      (match p with
+       | PAssign x e =>
+           if negb (fv_ok D L e) || tmem x L then None
+           else match tlookup x D with
+                | Some t => if ty_eqb t (a_ty e) then Some D else None
+                | None => if top then Some (D ++ [(x, a_ty e)]) else None
+                end
+       | PAug x op e t_after =>
+           if negb (fv_ok D L e) || tmem x L then None
+           else match tlookup x D with
+                | Some t => if ty_eqb t t_after then Some D else None
+                | None => None
+                end
+       | PTuple xs es => if top && tuple_decl_ok D L xs es then Some (D ++ combine xs (map a_ty es)) else None
+       | PBreak => Some D
+       | PWrite e | PSleep e | PExprS e => if fv_ok D L e then Some D else None
+       | PIf c body elifs els =>
+           if fv_ok D L c && nested L body
+              && forallb (fun cb => fv_ok D L (fst cb) && nested L (snd cb)) elifs
+              && nested L els
+           then Some D else None
+       | PWhile c body => if fv_ok D L c && nested L body then Some D else None
+       | PFor x cnt body =>
+           if fv_ok D L cnt && ty_eqb (a_ty cnt) TyInt
+              && negb (tmem x (map fst D)) && negb (tmem x L)
+              && negb (tmem x (a_fv cnt))
+              && disjoint (a_fv cnt) (assigned_in body)
+              && negb (tmem x (assigned_in body))
+              && nested (x :: L) body
+           then Some D else None
+       end)
     end
-  end.
-
-Fixpoint g_block (fuel : nat) (top : bool) (D : tenv) (L : list ident) (ps : list pstmt) : option tenv :=
-  match ps with
-  | [] => Some D
-  | q :: r => match g_stmt fuel top D L q with Some D1 => g_block fuel top D1 L r | None => None end
   end.
 
 (* all annotations of a program, and their consistency as a table id -> annotation *)
@@ -107,23 +118,17 @@ Definition ann_eqb (a b : ann) : bool :=
 Definition ids_consistent (p : pprog) : bool :=
   forallb (fun a => match info_of p (a_id a) with Some b => ann_eqb a b | None => false end) (prog_anns p).
 
-Fixpoint sdepth' (p : pstmt) : nat :=
-  let fix go (l : list pstmt) : nat := match l with [] => O | x :: r => Nat.max (sdepth' x) (go r) end in
-  let fix gob (l : list (ann * list pstmt)) : nat := match l with [] => O | (_, b) :: r => Nat.max (go b) (gob r) end in
-  S (match p with
-     | PIf _ b el e => Nat.max (go b) (Nat.max (gob el) (go e))
-     | PWhile _ b | PFor _ _ b => go b
-     | _ => O
-     end).
-Definition bdepth' (l : list pstmt) : nat := fold_right (fun p acc => Nat.max (sdepth' p) acc) O l.
+Definition no_top_tuple (ps : list pstmt) : bool :=
+  forallb (fun p => match p with PTuple _ _ => false | _ => true end) ps.
 
 Definition guard_ok (p : pprog) : bool :=
   ids_consistent p &&
-  match g_block (S (bdepth' (p_pre p))) true [] [] (p_pre p) with
+  match g_block (bsize (p_pre p)) true [] [] (p_pre p) with
   | None => false
   | Some D =>
       match p_main p with
       | None => true
-      | Some body => match g_block (S (bdepth' body)) false D [] body with Some _ => true | None => false end
+      | Some body => no_top_tuple body &&
+                     match g_block (bsize body) true D [] body with Some _ => true | None => false end
       end
   end.
